@@ -84,11 +84,15 @@ XalanMessageLoader::terminate()
 
     typedef XalanMessageLoader::XalanMessageLoaderDestructFunct LoaderDestructType;
 
-    assert(s_initManager != 0);
-    
-    LoaderDestructType()(*s_initManager, s_msgLoader);
+    // There is no loader if initialize() failed to create it...
+    if (s_msgLoader != 0)
+    {
+        assert(s_initManager != 0);
 
-    s_msgLoader = 0;
+        LoaderDestructType()(*s_initManager, s_msgLoader);
+
+        s_msgLoader = 0;
+    }
 }
 
 
